@@ -19,7 +19,7 @@ from __future__ import annotations
 import itertools
 
 from . import c15
-from .common import Check, Err, cN, cbool, clist, copt, cstr
+from .common import Check, Err, cN, cbool, clist, copt, cstr, impl_call
 
 IMPORTS = ("From Coq Require Import List NArith ZArith Bool.\n"
            "From Verif Require Import Base.Val C01.Model_C01 C16.Model_C16 C16.Spec_C16.")
@@ -177,6 +177,22 @@ def main(chk: Check):
     chk.count("strategy", len(strat_cases))
     chk.sample({"stream": "strategy", "input": strat_cases[0][0], "impl": strat_cases[0][1]})
 
+    # ------------------------------------------------------------------ choice_point call sequences
+    cp_cases, cp_raw = [], []
+    for pk_, ops_ in cp_corpus() + [gen_cp_case(rng) for _ in range(chk.n(220, 5000))]:
+        try:
+            cnfs, obs = run_cp_impl(pk_, ops_)
+        except Exception as e:  # noqa: BLE001  the driver itself must not die on the unchanged tree
+            chk.violation("correspondence", {"what": f"choice_point driver raised {type(e).__name__}",
+                                             "input": {"pkgs": pk_, "ops": ops_}}, no_input=True)
+            continue
+        cp_cases.append((c_cp_case(cnfs, ops_), obs))
+        cp_raw.append({"pkgs": pk_, "ops": ops_, "observed": obs})
+        if any(o[0] == "reduce" and o[1] for o in ops_) and any("||" in d for p_ in pk_ for d in p_.values()):
+            chk.nontrivial(("cp", repr(pk_), repr(ops_)))
+    chk.count("choice_point", len(cp_cases))
+    chk.sample({"stream": "choice_point", "input": cp_raw[0]})
+
     spec_bad = []
     if ok:
         import concurrent.futures as cf
@@ -185,9 +201,26 @@ def main(chk: Check):
             ("merge", "list (list cand)", merge_cases, ["mismatches run_merge cases"]),
             ("strategy", "N * list repo", strat_cases,
              ["mismatches run_strategy cases", "where_ (fun i r => negb (spec_strategy_ok i r)) cases"]))
-        with cf.ThreadPoolExecutor(max_workers=3) as ex:        # the three streams are independent
+        with cf.ThreadPoolExecutor(max_workers=4) as ex:        # the four streams are independent
+            fcp = ex.submit(chk.coq_eval, "choice_point", CP_IMPORTS,
+                            "list ChoicePoint_C16.pk * list ChoicePoint_C16.op", cp_cases,
+                            ["mismatches ChoicePoint_C16.run_cp cases",
+                             "where_ (fun i r => negb (ChoicePoint_C16.spec_cp_ok i r)) cases"],
+                            chk.n(240, 400), "Import ChoicePoint_C16.")
             results = list(ex.map(lambda st: chk.coq_eval(st[0], IMPORTS, st[1], st[2], st[3],
-                                                          shard=chk.n(100, 400), preamble=PREAMBLE), streams))
+                                                          shard=chk.n(200, 400), preamble=PREAMBLE), streams))
+            rcp = fcp.result()
+        if rcp is not None:
+            for i in rcp[1][:3]:
+                chk.violation("property",
+                              {"what": "choice_point: after a call the current candidate is not the first remaining "
+                                       "candidate whose requirement groups all keep an alternative under the "
+                                       "accumulated filters (a resolvable candidate is discarded, or a dead one kept)",
+                               "input": cp_raw[i]})
+            for i in [j for j in rcp[0] if j not in rcp[1]][:3]:
+                chk.violation("correspondence",
+                              {"what": "implementation and ChoicePoint_C16 model disagree on a call sequence",
+                               "input": cp_raw[i]}, no_input=not rcp[1])
         for (name, ty, cases, evals), r in zip(streams, results):
             if r is not None and name == "strategy":
                 spec_bad = [cases[i] for i in r[1]]
@@ -207,6 +240,99 @@ def main(chk: Check):
 
     # ------------------------------------------------------------------ resolution-level policy
     policy(chk)
+
+
+# --------------------------------------------------------------------------- choice_point call sequences
+CP_IMPORTS = IMPORTS.replace("C16.Spec_C16.", "C16.Spec_C16 C16.ChoicePoint_C16.")
+CP_SLOTS = ("_bdeps", "_deps", "_rdeps", "_prdeps", "_ideps")
+CP_ATTRS = ("bdepend", "depend", "rdepend", "pdepend", "idepend")       # attribute feeding each slot
+CP_GROUPS = ("a/q0", "a/q1", "a/q2", "|| ( a/q0 a/q1 )", "|| ( a/q1 a/q0 )", "|| ( a/q0 a/q2 )", "|| ( a/q3 a/q1 )",
+             "|| ( a/q0 a/q1 a/q2 )", "|| ( a/q3 a/q0 a/q1 )", "a/q3", "|| ( a/q2 a/q3 )")
+
+
+def gen_cp_case(rng):
+    """2-4 candidates, each with 0-3 requirement groups in some of the five classes (plain atoms and any-of
+    groups over 4 atoms; groups that coincide after pruning, duplicates, the same atom in several classes are
+    frequent by construction), and 2-7 calls on ONE choice_point: reduce_atoms with a single atom / a list /
+    a set / nothing, force_next_pkg, current_pkg, bool."""
+    pkgs = []
+    for _ in range(rng.choice((2, 2, 3, 3, 4))):
+        deps = {}
+        for a in CP_ATTRS:
+            if rng.random() < 0.45:
+                deps[a] = " ".join(rng.choice(CP_GROUPS) for _ in range(rng.choice((1, 2, 2, 3))))
+        pkgs.append(deps)
+    ops = []
+    for _ in range(rng.choice((2, 3, 4, 5, 7))):
+        r = rng.random()
+        if r < 0.6:
+            k = rng.choice((0, 1, 1, 1, 2))
+            ops.append(["reduce", rng.sample(range(4), k), rng.choice(("list", "set", "single") if k == 1 else ("list", "set"))])
+        elif r < 0.75:
+            ops.append(["force"])
+        elif r < 0.9:
+            ops.append(["cur"])
+        else:
+            ops.append(["bool"])
+    return pkgs, ops
+
+
+def run_cp_impl(pkgs, ops):
+    from pkgcore.ebuild.atom import atom
+    from pkgcore.ebuild.conditionals import DepSet
+    from pkgcore.resolver.choice_point import choice_point
+    from pkgcore.test.misc import FakePkg, FakeRepo
+
+    repo = FakeRepo(repo_id="r")
+    objs, cnfs, ids = [], [], {}
+    qa = [atom(f"a/q{i}") for i in range(4)]
+    aid = {str(a): i for i, a in enumerate(qa)}
+    for n, deps in enumerate(pkgs):
+        p = FakePkg(f"a/cand-{len(pkgs) - n}", repo=repo)
+        per = []
+        for a in CP_ATTRS:
+            ds = DepSet.parse(deps.get(a, ""), atom)
+            object.__setattr__(p, a, ds)
+            per.append([[aid[str(x)] for x in cl] for cl in ds.cnf_solutions()])
+        objs.append(p)
+        cnfs.append(per)
+        ids[id(p)] = n
+    cp = choice_point(atom("a/cand"), objs)
+    obs = []
+    for o in ops:
+        def call():
+            if o[0] == "reduce":
+                arg = [qa[i] for i in o[1]]
+                if o[2] == "set":
+                    arg = set(arg)
+                elif o[2] == "single":
+                    arg = arg[0]
+                return bool(cp.reduce_atoms(arg))
+            if o[0] == "force":
+                return bool(cp.force_next_pkg())
+            if o[0] == "cur":
+                return ids[id(cp.current_pkg)]
+            return bool(cp)
+        ret = impl_call(call)
+        if cp.matches_cur is None:
+            obs.append([ret, None, None])
+        else:
+            obs.append([ret, ids[id(cp.matches_cur)],
+                        [[[aid[str(x)] for x in cl] for cl in getattr(cp, sl)] for sl in CP_SLOTS]])
+    return cnfs, obs
+
+
+def c_cp_case(cnfs, ops):
+    def nl(xs):
+        xs = list(xs)
+        return "[" + ";".join(str(x) for x in xs) + "]%N" if xs else "(@nil N)"
+    ps = [f"mkpk {n} {clist([clist([nl(cl) for cl in ds], 'clause') for ds in per], 'depset')}"
+          for n, per in enumerate(cnfs)]
+    os_ = []
+    for o in ops:
+        os_.append({"reduce": lambda: f"Reduce {nl(o[1])}", "force": lambda: "ForceNext",
+                    "cur": lambda: "Cur", "bool": lambda: "Truth"}[o[0]]())
+    return f"({clist(ps, 'pk')}, {clist(os_, 'op')})"
 
 
 def _call(f):
@@ -383,6 +509,63 @@ def gen_cycle_scenario(rng):
             "family": "cycle", "built": rng.random() < 0.5}
 
 
+PRUNE_GROUPS = ("|| ( a/gone a/c )", "a/c", "|| ( a/c a/gone )", "|| ( a/gone a/gone2 a/c )", "|| ( a/gone a/c a/d )",
+                "|| ( a/c a/d )", "a/d", "|| ( a/gone a/d )", ">=a/c-1", "|| ( a/gone >=a/c-1 )", "|| ( a/gone2 a/c )",
+                "|| ( a/gone a/d a/c )", "|| ( a/d a/gone a/c )")
+
+
+def gen_prune_scenario(rng):
+    """structured family around choice_point's pruning (reduce_atoms/_filter_choices): the preferred
+    candidate's depsets hold any-of groups with unsatisfiable alternatives in every position, next to plain
+    requirements and other groups that coincide with what is left of a group after pruning (before and after
+    it, repeated, spread over classes).  The candidate stays resolvable (a/c and a/d exist), so the strict
+    oracle demands it.  Variants: a/c, a/d installed / already in the plan through an earlier target / neither;
+    the preferred candidate itself installed (must be kept, by both strategies); an unresolvable newer a/t-3;
+    the candidate reached as a dependency of a second target's highest version."""
+    n = rng.choice((2, 2, 3, 3, 4))
+    groups = [rng.choice(PRUNE_GROUPS) for _ in range(n)]
+    if rng.random() < 0.5:            # make sure the collapsing shape (group, then its remainder) is frequent
+        rem = rng.choice(("a/c", "a/d", ">=a/c-1"))
+        g = rng.choice((f"|| ( a/gone {rem} )", f"|| ( {rem} a/gone )", f"|| ( a/gone a/gone2 {rem} )"))
+        groups = [g, rem] if rng.random() < 0.7 else [rem, g]
+        if rng.random() < 0.4:
+            groups.insert(rng.randrange(3), rng.choice(PRUNE_GROUPS))
+    tdeps = {}
+    if rng.random() < 0.7:
+        tdeps[rng.choice(c15.CLASSES)] = " ".join(groups)
+    else:
+        k = rng.randrange(1, len(groups))
+        c1, c2 = rng.sample(c15.CLASSES, 2)
+        tdeps[c1], tdeps[c2] = " ".join(groups[:k]), " ".join(groups[k:])
+    src = [["a/t-2", "0", tdeps], ["a/t-1", "0", {} if rng.random() < 0.7 else {"rdepend": "a/d"}],
+           ["a/c-1", "0", {}], ["a/d-1", "0", {} if rng.random() < 0.8 else {"rdepend": "a/c"}]]
+    if rng.random() < 0.2:
+        src.append(["a/c-2", "0", {}])
+    if rng.random() < 0.15:
+        src.append(["a/t-3", "0", {"rdepend": "|| ( a/gone a/gone2 )"}])
+    vdb = []
+    for cpv in ("a/c-1", "a/d-1"):
+        if rng.random() < 0.2:
+            vdb.append([cpv, "0", {}])
+    if rng.random() < 0.25:
+        vdb.append(["a/t-2", "0", dict(tdeps)])
+    elif rng.random() < 0.15:
+        vdb.append(["a/t-1", "0", {}])
+    targets = ["a/t"]
+    r = rng.random()
+    if r < 0.15:
+        targets.insert(0, rng.choice(("a/c", "a/d")))          # already in the plan when a/t is resolved
+    elif r < 0.35:
+        src.append(["a/top-2", "0", {rng.choice(c15.CLASSES): rng.choice(("=a/t-2", ">=a/t-2", "a/t"))}])
+        src.append(["a/top-1", "0", {}])
+        targets = ["a/top"] if rng.random() < 0.6 else ["a/top", "a/t"]
+        # a/top-2 needs a/t-2: an installed a/t-1 would legitimately be replaced for it
+        vdb = [v for v in vdb if v[0] != "a/t-1"]
+    rng.shuffle(src)
+    return {"vdb": vdb, "src": src, "targets": targets, "kind": rng.choice(("upgrade", "upgrade", "min")),
+            "built": rng.random() < 0.6, "family": "prune"}
+
+
 def _best(w, cands):
     best = None
     for i in cands:
@@ -497,7 +680,7 @@ def policy(chk: Check):
              "twice_same": 0, "oracle_no_verdict": 0}
     bad = []
     for scn in corpus_scenarios():
-        judge(chk, scn, stats, bad, strict=scn.get("family") in ("cycle", "built"))
+        judge(chk, scn, stats, bad, strict=scn.get("family") in ("cycle", "built", "prune"))
     # random universes of C15's generator: one target, or several targets on one resolver object
     for _ in range(chk.n(320, 8000)):
         scn = c15.gen_scenario(rng)
@@ -515,6 +698,11 @@ def policy(chk: Check):
     for _ in range(chk.n(150, 4000)):
         judge(chk, c15.gen_built_scenario(rng), stats, bad, strict=True)
     stats["built_family"] = {k: stats[k] - base.get(k, 0) for k in ("runs", "ok", "upgrade_checked", "min_checked")}
+    base = dict((k, v) for k, v in stats.items() if not isinstance(v, dict))
+    # structured family around choice_point pruning (strict judgement)
+    for _ in range(chk.n(200, 5000)):
+        judge(chk, gen_prune_scenario(rng), stats, bad, strict=True)
+    stats["prune_family"] = {k: stats[k] - base.get(k, 0) for k in ("runs", "ok", "upgrade_checked", "min_checked")}
     chk.count("policy", stats["runs"])
     chk.cov["policy"] = stats
     shown = 0
@@ -585,3 +773,19 @@ def replay(chk: Check, data):
     t = w.targets[0]
     for i in w.match[w.atom_id[str(t)]]:
         print(" candidate", w.scn_name(i), "oracle:", oracle_final_states(w, i), "resolver-can:", _resolver_can(scn, w, i))
+
+
+def cp_corpus():
+    import json
+
+    from .common import VERIF
+    out = []
+    d = VERIF / "corpus" / "C16"
+    if d.is_dir():
+        for p in sorted(d.glob("*.json")):
+            try:
+                c = json.loads(p.read_text())["cp"]
+                out.append((c["pkgs"], c["ops"]))
+            except Exception:  # noqa: BLE001
+                pass
+    return out
